@@ -18,6 +18,19 @@ import types
 Pickler = pickle._Pickler
 
 
+def _sorted_total(items):
+    """Sort items, raising TypeError if they are only partially ordered.
+
+    Some comparable objects are not totally ordered (frozensets are ordered
+    by inclusion): the result of sorted would then depend on the input order.
+    """
+    items = sorted(items)
+    for first, second in zip(items, items[1:]):
+        if not first <= second:
+            raise TypeError("items are only partially ordered")
+    return items
+
+
 class _ConsistentSet(object):
     """Class used to ensure the hash of Sets is preserved
     whatever the order of its items.
@@ -30,7 +43,7 @@ class _ConsistentSet(object):
             # consistent and orderable.
             # This fails on python 3 when elements are unorderable
             # but we keep it in a try as it's faster.
-            self._sequence = sorted(set_sequence)
+            self._sequence = _sorted_total(set_sequence)
         except (TypeError, decimal.InvalidOperation):
             # If elements are unorderable, sorting them using their hash.
             # This is slower but works in any case.
@@ -146,7 +159,7 @@ class Hasher(Pickler):
             # consistent and orderable.
             # This fails on python 3 when keys are unorderable
             # but we keep it in a try as it's faster.
-            Pickler._batch_setitems(self, iter(sorted(items)), *args)
+            Pickler._batch_setitems(self, iter(_sorted_total(items)), *args)
         except TypeError:
             # If keys are unorderable, sorting them using their hash. This is
             # slower but works in any case.
